@@ -53,6 +53,11 @@ CHECKS.update({
  "C11": form_b("Every n x n matrix over small alphabets (n<=4, up to 3^16 in thorough), every permutation (x diagonal) up to n=7, structured families for n up to 100/300 with the singular row / needed swap / zero column at every position; Inverse, RowReduceForInverse and Times judged by a reference determinant/adjugate (small) or reference elimination and products (large); operands compared before/after.",
    "Trusted base: ref/lin + ref/gf16. Dense random-looking matrices above n=4 only as structured families.", "DESIGN.md 3/C11"),
 })
+CHECKS.update({
+ "C12": ("model_checking", "stateless schedule exploration of the real goroutines under a controlled scheduler (preemption-bounded DFS), plus bounded-exhaustive partition arithmetic",
+   "The concurrent sources are instrumented from the current tree (AST rewriting: sync->shim, go->shim.Go, yields, kernel-call wrappers) and injected with go build -overlay; a cooperative scheduler then enumerates EVERY interleaving of the worker goroutines at kernel-call granularity and every interleaving with <=2 (thorough <=3) preemptions at statement granularity, for encode and reconstruct configurations; each execution is checked against the single-goroutine bytes and for conflicting memory accesses between workers. The goroutine-count dimension is a full product (every even length 2..600 x g 1..40), par2 Create/Repair are compared for g=1..12, and the same bodies run free under the race detector in a separate -race build.",
+   "Scheduler is sequentially consistent; weak memory only via the race-detector side pass. Unsupported constructs (channels, atomics) are reported and make the run non-exhaustive.", "DESIGN.md 3/C12"),
+})
 NOT_YET = "check not built yet in this round (work in progress; see DESIGN.md section 3 for the planned model-checking harness)"
 
 def main():
